@@ -148,6 +148,17 @@ CHECKS = {
          "M*(p,1), project_point3, transform_point3 of all 10 projection constructors on 48-100 probe points per parameter set."),
    note="Trusted: TLC, harness rot.rs tolerance comparison (4e-5 / 4e-12 relative). Parameters off the dyadic grids are not enumerated.",
    ref="5 (C11)"),
+ "C12": dict(
+   technique="TLA+ exact lerp family (Ieee), exact single-axis quaternion/vector interpolation over the ring with the shorter-arc rule as arithmetic on eighth-turns, relational statements for arcs/orthonormal bases/move/clamp; TLC enumeration and replay",
+   text=("MC_C12 computes vector lerp/midpoint and FloatExt lerp/inverse_lerp exactly (TLC checks the end points are hit exactly for finite "
+         "operands), models slerp/lerp/rotate_towards between rotations about one axis as integer arithmetic on eighth-turns with the "
+         "shorter-arc flip (q vs -q) and checks both ends are reached, and enumerates planar rotate_towards/slerp of vectors with "
+         "different lengths, positive/zero/overshooting/negative steps. The harness compares Quat/DQuat and Vec2/Vec3/Vec3A/DVec results "
+         "with the exact grid rotation, and evaluates the stated relations for from_rotation_arc(_colinear/_2d) over all lattice "
+         "direction pairs, any_orthogonal/orthonormal vector/pair over the lattice sphere (z = -1 included), move_towards on Pythagorean "
+         "segments and clamp_length(_min/_max)."),
+   note="Trusted: TLC, harness interp.rs. Tolerances 2e-4 (f32 angle-derived; polynomial arccos/sine) / 1e-9 (f64); angle = s*theta between lattice arcs undecided.",
+   ref="5 (C12)"),
 }
 
 PENDING = {}
